@@ -6,7 +6,7 @@ CONSTANTS Addrs <- McAddrs
  MaxBlocks = 4
  MaxWrites = 1
  MaxStable = 2
- MaxRestart = 1
+ MaxRestart = 0
  MaxReads = 1
  LeafOnly = TRUE
 INVARIANTS TypeOK ViewIsNearestWrite ForksIsolated PersistEqualsStableView
